@@ -323,7 +323,7 @@ def separate_label_from_braces(prog):
         for key in ("body", "then", "else"):
             if isinstance(st.get(key), list):
                 separate_label_from_braces(st[key])
-        if st["k"] == "label" and not st["hasBody"] and i + 1 < len(prog) and prog[i + 1]["k"] == "braces":
+        if st["k"] in ("label", "useseg") and not st["hasBody"] and i + 1 < len(prog) and prog[i + 1]["k"] == "braces":     # (`.segment "s"` alike)
             prog.insert(i + 1, insn("nop"))
         i += 1
 
